@@ -14,6 +14,69 @@ import time
 from vf import core
 
 
+def _shard_entry(job, path):
+    """child process: run one shard, write its result as JSON"""
+    try:
+        res = core.run_shard(job)
+    except BaseException:  # noqa
+        import traceback
+        res = {"harness_error": traceback.format_exc(), "shard": job[2]}
+    tmp = path + ".tmp"
+    with open(tmp, "w") as f:
+        json.dump(res, f, default=repr)
+    os.replace(tmp, path)
+    os._exit(0)
+
+
+def run_shards_in_processes(jobs, procs, tier):
+    """One forked process per shard, started from this (single-threaded) process - no multiprocessing.Pool, whose handler
+    threads fork replacement workers from a multi-threaded parent (observed once: all workers dead-locked in futex_wait).
+    A shard that produces no result within the time limit is killed and run again once; a second failure is a harness error."""
+    work = os.path.join(core.VERIF, "evidence", ".work", "%d" % os.getpid())
+    os.makedirs(work, exist_ok=True)
+    limit = float(os.environ.get("VERIF_SHARD_TIMEOUT", "1500" if tier == "quick" else "14400"))
+    mp = multiprocessing.get_context("fork")
+    pending = list(enumerate(jobs))
+    attempts = {k: 0 for k, _ in pending}
+    running = {}
+    results = {}
+    try:
+        while pending or running:
+            while pending and len(running) < procs:
+                k, job = pending.pop(0)
+                path = os.path.join(work, "shard_%d_%d.json" % (k, attempts[k]))
+                p = mp.Process(target=_shard_entry, args=(job, path))
+                p.start()
+                running[k] = (p, path, time.time(), job)
+            time.sleep(0.05)
+            for k in list(running):
+                p, path, t0, job = running[k]
+                if os.path.exists(path):
+                    with open(path) as f:
+                        results[k] = json.load(f)
+                    p.join(5)
+                    if p.is_alive():
+                        p.kill()
+                    del running[k]
+                elif not p.is_alive() or time.time() - t0 > limit:
+                    if p.is_alive():
+                        p.kill()
+                    p.join(5)
+                    del running[k]
+                    attempts[k] += 1
+                    if attempts[k] >= 2:
+                        results[k] = {"harness_error": "shard %d produced no result (crashed or exceeded %.0fs) twice" % (k, limit), "shard": k}
+                    else:
+                        pending.append((k, job))
+    finally:
+        for k, (p, path, t0, job) in running.items():
+            if p.is_alive():
+                p.kill()
+        import shutil
+        shutil.rmtree(work, ignore_errors=True)
+    return [results[k] for k in sorted(results)]
+
+
 def main(argv):
     if not argv:
         print(__doc__)
@@ -91,22 +154,17 @@ def main(argv):
     # ---------------------------------------------------------------------------------------------------------
     # regression tier: every saved reproducer, bypassing Hypothesis
     # ---------------------------------------------------------------------------------------------------------
+    # (executed inside shard 0's child process, never in this parent: a parent that has run a solver has started
+    #  solver threads, and children forked from it dead-lock)
     regress_dir = os.path.join(core.VERIF, "replays", "regress", prop)
-    n_regress = 0
+    regress_cases = []
     if os.path.isdir(regress_dir):
         for name in sorted(os.listdir(regress_dir)):
             if not name.endswith(".json"):
                 continue
             with open(os.path.join(regress_dir, name)) as f:
                 data = json.load(f)
-            case = data["case"] if isinstance(data, dict) and "case" in data else data
-            try:
-                core.run_case(module, case, ctx)
-            except core.HarnessError as exc:
-                print("HARNESS-ERROR (regress %s) %s" % (name, exc))
-                return 2
-            n_regress += 1
-    ctx.counters["regress_cases"] = n_regress
+            regress_cases.append(data["case"] if isinstance(data, dict) and "case" in data else data)
 
     # ---------------------------------------------------------------------------------------------------------
     # generated tier: sharded Hypothesis
@@ -116,14 +174,9 @@ def main(argv):
     nshards = shards_override or getattr(module, "SHARDS", {}).get(tier, min(16, ncpu))
     nshards = max(1, min(nshards, total if total > 0 else 1))
     per = [total // nshards + (1 if k < total % nshards else 0) for k in range(nshards)]
-    jobs = [(modname, tier, k, nshards, per[k], base_seed) for k in range(nshards)]
-    mp = multiprocessing.get_context("fork")
+    jobs = [(modname, tier, k, nshards, per[k], base_seed, regress_cases if k == 0 else []) for k in range(nshards)]
     procs = min(nshards, ncpu)
-    if procs == 1:
-        results = [core.run_shard(j) for j in jobs]
-    else:
-        with mp.Pool(processes=procs, maxtasksperchild=1) as pool:
-            results = pool.map(core.run_shard, jobs, chunksize=1)
+    results = run_shards_in_processes(jobs, max(procs, 1), tier)
     harness_errors = [r for r in results if "harness_error" in r]
     if harness_errors:
         for r in harness_errors[:3]:
